@@ -119,14 +119,17 @@ def local_limit_runs(tier, viols):
         ("mixed", [{"threads": 1, "mem_gb": 1}, {"threads": 2, "mem_gb": 2}, {"threads": 3, "mem_gb": 1}, {"threads": 1, "mem_gb": 3}], 3, 3),
         ("over_limit", [{"threads": 8, "mem_gb": 1}, {"threads": 2.5, "mem_gb": 9}, {"threads": 1, "mem_gb": 1}, {"threads": 0.5, "mem_gb": 1}], 2, 2),
         ("fractional", [{"threads": 0.5, "mem_gb": 1}] * 4, 1, 4),
+        # hundredths of a core that are not exact in binary, then a job that needs every core
+        ("fraction_then_all", [{"threads": 1.15, "mem_gb": 1}, {"threads": 0.29, "mem_gb": 1}, {"threads": 0.57, "mem_gb": 1}, {"threads": 1.1, "mem_gb": 1}], 3, 4),
     ]
     if tier == "quick":
-        configs = configs[:4]
+        configs = configs[:3] + configs[-1:]
     report = []
     progs = []
     for name, ress, cores, mem in configs:
         stages = [stage("W%d" % i, "int x", "int y", {"y": const(i)}, res=r) for i, r in enumerate(ress)]
-        stages.append(stage("SINK", "int a, int b, int c, int d", "int s", {"s": const(1)}))
+        stages.append(stage("SINK", "int a, int b, int c, int d", "int s", {"s": const(1)},
+                            res=({"threads": cores, "mem_gb": 1} if name == "fraction_then_all" else None)))
         calls = [call("W%d" % i, binds={"x": self_("x")}) for i in range(len(ress))]
         calls.append(call("SINK", binds={k: ref("W%d" % i, "y") for i, k in enumerate("abcd")}))
         progs.append(program("lim_" + name, [], stages, [pipeline("TOP", "int x", "int s", calls, {"s": ref("SINK", "s")})], "TOP", {"x": 1}))
@@ -135,7 +138,7 @@ def local_limit_runs(tier, viols):
         for rep in range(1 if tier == "quick" else 4):
             c = procdrv.Cycle(root, os.path.join(base, "%s_%d" % (name, rep)), q, sem[q["name"]], name, delay_ms=120,
                               cores=cores, mem=mem)
-            rc_, dt = c.run(timeout=180)
+            rc_, dt = c.run(timeout=(60 if name == "fraction_then_all" else 180))
             evs = c.events()
             running = {}
             peak_t = peak_m = 0.0
